@@ -71,7 +71,9 @@ MseLinear(a, b) == IF b - a <= 2 THEN <<0, 1>>                              \* n
                    ELSE IF Sxx(a, b) = 0 THEN <<Syy(a, b), (b - a) * (b - a)>>
                    ELSE <<Sxx(a, b) * Syy(a, b) - Sxy(a, b) * Sxy(a, b), (b - a) * (b - a) * Sxx(a, b)>>
 Mse(a, b) == IF kind = "linear" THEN MseLinear(a, b) ELSE MseConst(a, b)
-Claimed(a, b) == TRUE
+\* what C09 claims: every range for the constant fit; for the linear fit the ranges with MORE rows than coefficients (two
+\* here: slope and intercept) - what a criterion reports for a shorter range is its own business (0 in the current code)
+Claimed(a, b) == kind # "linear" \/ b - a > 2
 
 NodeValue    == MeanOf(start, end)
 NodeImpurity == Mse(start, end)
